@@ -137,10 +137,10 @@ impl Unreal2Protocol {
                 .min(MAXIMUM_PLAYER_PREALLOCATION),
         );
 
-        // Fetch first players packet (with retries)
-        let mut players_data = self.get_request_data(PacketKind::Players);
-        // Players are non required so if we don't get any responses we continue to
-        // return
+        // Fetch first players packet (with retries), if there is no response at all that is an
+        // error: the gather setting decides whether it matters (Try) or not (Enforce)
+        let mut players_data: GDResult<Vec<u8>> = Ok(self.get_request_data(PacketKind::Players)?);
+        // More packets can follow, until one doesn't
         while let Ok(data) = players_data {
             let mut buffer = Buffer::<LittleEndian>::new(&data);
 
